@@ -53,6 +53,7 @@ def setup():
         st = json.load(open(os.path.join(core.LEAN, "Simfile", "Gen", "code_status.json")))
         short = sorted({e["module"].split(".")[-1] for e in st.values()})
         gmods = ["Simfile.GenDiff.Rand", "Simfile.GenDiff.RandObj"] + ["Simfile.Gen.Code." + m for m in short] + ["Simfile.Props.GenEq." + m for m in short]
+        gmods += sorted("Simfile.Props.GenProps." + f[:-5] for f in os.listdir(os.path.join(core.LEAN, "Simfile", "Props", "GenProps")) if f.endswith(".lean"))
     except Exception as e:
         print("code translator status unreadable: %s" % e)
     mods = ["Simfile", "Simfile.Driver"] + sorted({m for v in core.PROPS_INDEX.values() for m in [v["module"]] + v.get("extra_modules", [])}) + gmods
